@@ -1,4 +1,4 @@
-import TrionModel.Lemmas.LexStr
+import TrionModel.Lemmas.LexStrAll
 /-!
 # C11 — literals denote exactly the written value
 
@@ -327,6 +327,32 @@ theorem str_reject_uni (items : List StrItem) (hok : ∀ it ∈ items, it.Ok) (t
   str_reject items hok _
     (utf8_ascii_cons 92 (by decide) (utf8_ascii_cons 117 (by decide) (utf8_ascii_cons 123 (by decide) hr))) (by simp)
     (badTail_uni_bad text more hr hno hlen hbad)
+
+/-- C11.v  the converse of `utf8_roundtrip`: whatever `chars().next()` returns is a scalar value and the bytes
+consumed are its encoding -/
+theorem utf8_roundtrip_inv (d : Bytes) (c n : Nat) (h : decodeChar d = some (c, n)) :
+    isScalar c = true ∧ d = encodeChar c ++ d.drop n := decodeChar_inv h
+
+/-- C11.w  a well-formed string literal followed by ANY text: the first call of `next()` yields the string
+token with the denoted text and leaves exactly the rest -/
+theorem str_lit_then (items : List StrItem) (hok : ∀ it ∈ items, it.Ok) (rest : Bytes) (hrest : Utf8 rest) :
+    nextToken ⟨34 :: renderAll items ++ 34 :: rest, false, 1, 1⟩ =
+      .tok ⟨1, 1, .str (denoteAll items)⟩
+        ⟨rest, false, (Pos.of (34 :: renderAll items ++ [34])).1, (Pos.of (34 :: renderAll items ++ [34])).2⟩ := by
+  rw [nextToken_doNext _ 34 (renderAll items ++ 34 :: rest) (by simp) (by decide) (by decide),
+    doNext_string _ 34 (renderAll items ++ 34 :: rest) (by simp) (by decide),
+    lexString_items items hok rest hrest, Pos.of_eq_adv]
+
+/-- C11.x  **Dichotomy: the reject classes are exhaustive.** For EVERY well-formed UTF-8 text after an opening
+quote: either it begins with a well-formed body and its closing quote (then `str_lit_then` gives the token), or
+the whole input is the single error `BadString` at 1:1 with no token. In particular every body without an
+unescaped closing quote is rejected. -/
+theorem str_dichotomy (body : Bytes) (hu : Utf8 body) :
+    (∃ items rest, (∀ it ∈ items, StrItem.Ok it) ∧ Utf8 rest ∧ body = renderAll items ++ 34 :: rest) ∨
+    tokens (34 :: body) = .ok ⟨[], some ⟨1, 1, .badString⟩, 1, 1⟩ := by
+  rcases bodyCases_all body.length body (Nat.le_refl _) hu with h | ⟨items, tail, h1, h2, h3, h4, rfl⟩
+  · exact .inl h
+  · exact .inr (str_reject items h1 tail h2 h3 h4)
 
 /-! non-vacuity: items of every kind, multi-byte characters, both payload routes, each reject class -/
 example : RawChar 0x20AC ∧ RawChar 0x1F600 ∧ RawChar 9 ∧ ¬ RawChar 92 ∧ ¬ RawChar 127 := by
